@@ -173,7 +173,9 @@ def symbolsSpec (s : SymSpec) (line ans : String) : SymSpec × String :=
         else ({ s with good := s.good ++ [f.id], lastFailExt := false }, "holds")
     | none => (s, "skip")
   | ["race"] =>
-    (s, if ans == "ok" then "holds" else s!"fails concurrent-import-lost-symbols {ans}")
+    (s, if ans == "ok" then "holds"
+        else if ans.startsWith "residue" then s!"fails failed-import-left-state concurrent-imports {ans}"
+        else s!"fails concurrent-import-lost-symbols {ans}")
   | ["dump"] =>
     let expect := showDump (naiveLookup s) (naiveLookupExt s) s.defs
     if ans == expect then (s, "holds")
